@@ -19,6 +19,7 @@ SCALAR = [
     ("binary", dict()), ("binary", dict(use_01=True)),
     ("ternary", dict(alpha=1.0)), ("ternary", dict(alpha=0.5, threshold=0.5)), ("ternary", dict(alpha=2.0, threshold=0.125)), ("ternary", dict()),
     ("ternary", dict(threshold=0.75)),
+    ("ternary", dict(alpha=1.0, threshold=0.0)),     # a threshold of exactly 0 is a threshold (nothing but zero is below it)
 ]
 
 
